@@ -502,6 +502,37 @@ Proof.
 Qed.
 Print Assumptions leiden_refine_terminates.
 
+(** The kernel AS CODED since fix 0f5490bf carries its own generator ([Safety2.leiden_draw]: state 1 on entry,
+    draw*1103515245+12345 modulo 2^32, value draw >> 16): the instance of the theorem above for that stream - this is the
+    term the correspondence run evaluates against the compiled kernel. *)
+Theorem leiden_refine_terminates_coded_generator fuel n m labels labels_refined indices indptr
+        (data out_weights in_weights out_cluster_weights in_cluster_weights cluster_weights self_loops : list Q)
+        res :
+  csr_wf n indptr indices data ->
+  let g := csr_graph n indptr indices data in
+  wsymmetric g ->
+  (forall i, i < n -> (nthq self_loops i == entry g i i)%Q) ->
+  length labels = n -> length labels_refined = n -> Forall (fun l => l < m) labels_refined ->
+  length out_weights = n -> length in_weights = n -> length out_cluster_weights = m ->
+  length in_cluster_weights = m -> length cluster_weights = m -> length self_loops = n ->
+  (forall c, c < m -> (nthq out_cluster_weights c == csum g labels_refined out_weights c)%Q) ->
+  (forall c, c < m -> (nthq in_cluster_weights c == csum g labels_refined in_weights c)%Q) ->
+  (forall c, c < m -> (nthq cluster_weights c == 0)%Q) ->
+  (forall x y, x < n -> y < n -> lab labels_refined x = lab labels_refined y -> lab labels x = lab labels y) ->
+  S (m ^ n) <= fuel ->
+  exists lr' passes,
+    optimize_refine_core fuel Safety2.leiden_draw labels labels_refined indices indptr data out_weights in_weights
+                         out_cluster_weights in_cluster_weights cluster_weights self_loops res
+    = KOk (lr', passes) /\
+    passes <= S (m ^ n) /\ length lr' = n /\ Forall (fun l => l < m) lr' /\
+    (forall x y, x < n -> y < n -> lab lr' x = lab lr' y -> lab labels x = lab labels y) /\
+    (objective g out_weights in_weights res labels_refined <= objective g out_weights in_weights res lr')%Q.
+Proof.
+  exact (leiden_refine_terminates_ok fuel Safety2.leiden_draw n m labels labels_refined indices indptr data out_weights
+           in_weights out_cluster_weights in_cluster_weights cluster_weights self_loops res).
+Qed.
+Print Assumptions leiden_refine_terminates_coded_generator.
+
 (** the call made by Leiden._optimize_refine (labels_refined = arange(n), cluster weights = node weights,
     cluster_weights = zeros(n)): returns, and the result refines [labels] *)
 Theorem leiden_refine_call_terminates fuel rnd n labels indices indptr
